@@ -59,7 +59,10 @@ LenOf(cls) == IF cls = "S" THEN 1 ELSE 3
 CapOf(buf) == IF buf = 1 THEN 4 ELSE 2
 Bufs == {1, 2}
 
-BindIp(b) == IF b = "any" THEN "0.0.0.0" ELSE IF b = "grp" THEN G1 ELSE "lo"
+\* mc: "any" = ":P", "grp" = "<g1>:P", "if" = "<interface address>:P" (never receives multicast);
+\* pc: "lo" "localhost" "empty" "port0" "if" - all the same to the model
+BindIp(b) == IF b = "any" THEN "0.0.0.0" ELSE IF b = "grp" THEN G1
+             ELSE IF b = "if" /\ Kind = "mc" THEN "ifip" ELSE "lo"
 RPort == 1
 WPort == 2
 XPortPc == 5
@@ -291,6 +294,9 @@ RdStep ==
   /\ \E p \in Rcv, buf \in Bufs :
        \/ ReadSync(p, buf)
        \/ \E lim \in BOOLEAN : ReadAsync(p, AsyncApi, buf, lim)
+       \* packet.go: asyncReadNow calls back after one datagram whether or not readAll is set
+       \/ /\ Kind = "pc" /\ "readall" \in Acts
+          /\ \E lim \in BOOLEAN : ReadAsync(p, "AsyncReadAllFrom", buf, lim)
        \/ SetBuf(p, buf)
 
 \* ----------------------------------------------------------------- writer
